@@ -27,6 +27,7 @@ func main() {
 	}
 	runRecord()
 	runVariance()
+	runBuffers()
 	chk.Finish()
 }
 
@@ -500,6 +501,12 @@ func replay() {
 	mc.LoadReplay(chk.ReplayFile(), &raw)
 	l := chk.NewLocal()
 	defer l.Merge()
+	if k, _ := raw["Kind"].(string); k == "pattern-buffer" {
+		var h histCase
+		mc.LoadReplay(chk.ReplayFile(), &h)
+		patternHistory(l, h.N, h.Step, &h)
+		return
+	}
 	if _, ok := raw["Pattern"]; ok {
 		var c varCase
 		mc.LoadReplay(chk.ReplayFile(), &c)
